@@ -4432,6 +4432,10 @@ EmitModVSib:
     // in 16-bit mode, so this may fail.
     const uint32_t kBaseGpIdx = (kX86MemInfo_BaseGp | kX86MemInfo_Index);
 
+    // Not supported in 16-bit addresses (with or without an index register).
+    if (rm_info & (kX86MemInfo_BaseRip | kX86MemInfo_BaseLabel))
+      goto InvalidAddress;
+
     if (rm_info & kBaseGpIdx) {
       // ==========|> [BASE + INDEX + DISP16].
       uint32_t mod;
@@ -4474,10 +4478,6 @@ EmitModVSib:
       }
     }
     else {
-      // Not supported in 16-bit addresses.
-      if (rm_info & (kX86MemInfo_BaseRip | kX86MemInfo_BaseLabel))
-        goto InvalidAddress;
-
       // ==========|> [DISP16].
       writer.emit8(op_reg | 0x06);
       writer.emit16u_le(uint32_t(rel_offset));
